@@ -194,6 +194,17 @@ func (x *c02Exp) try(class, what string, key, nonce, sealed, ad []byte) {
 	}
 }
 
+// authenticRejected records that Open refused (or garbled) the unmodified,
+// spec-sealed message: the same Open code C02 anchors rejects an authentic
+// input; the tamper results of that unit on that path are then vacuous.
+func (x *c02Exp) authenticRejected(path, what string, err error) {
+	w := map[string]any{"path": path, "kind": kindName(x.kind), "what": what, "key": mon.FullHex(x.key), "nonce": mon.FullHex(x.nonce), "ad": mon.FullHex(x.ad), "pt": mon.FullHex(x.pt), "sealed_by_spec": mon.FullHex(x.seal)}
+	if err != nil {
+		w["err"] = err.Error()
+	}
+	x.m.Violation("authentic-rejected:aead:"+path+":"+kindName(x.kind), w)
+}
+
 // selfSealed runs enumerate a second time, per path, on the message as the
 // implementation's OWN Seal on that path produces it — but only when that
 // differs from the spec-sealed one (then C01 is violated, and the statement
@@ -215,7 +226,9 @@ func (x *c02Exp) selfSealed(enumerate func(x *c02Exp)) {
 		}
 		x.m.Count("self_sealed_differs_from_spec:"+path, 1)
 		if err != nil || !bytes.Equal(back, x.pt) {
-			x.m.Inconclusive(fmt.Sprintf("%s Seal on %s differs from the spec and its own Open does not return the plaintext (C01's concern); self-sealed tamper experiment skipped", kindName(x.kind), path))
+			y := *x
+			y.seal = own
+			y.authenticRejected(path, "the message as this path's own Seal emitted it (which also differs from the spec)", err)
 			continue
 		}
 		y := *x
@@ -395,8 +408,8 @@ func c02AEADUnit(m *mon.M, r *rand.Rand, ps []string, kind, li, group int, allBi
 		var err error
 		onPath(path, func() { out, err = a.Open(nil, x.nonce, x.seal, x.ad) })
 		if err != nil || !bytes.Equal(out, x.pt) {
-			m.Inconclusive(fmt.Sprintf("baseline: %s Open of the spec-sealed message failed on %s (len %d): the tamper experiment would be vacuous (this is C01's concern)", kindName(kind), path, n))
-			return
+			x.authenticRejected(path, fmt.Sprintf("payload %d bytes, ad %d bytes", n, len(x.ad)), err)
+			continue
 		}
 	}
 	m.Count("baseline_authentic", len(ps))
@@ -490,7 +503,7 @@ func c02SecretboxUnit(m *mon.M, r *rand.Rand, n int, allBits bool) {
 		return
 	}
 	if out, ok := secretbox.Open(nil, sealed, &nonce, &key); !ok || !bytes.Equal(out, msg) {
-		m.Inconclusive(fmt.Sprintf("baseline: secretbox.Open of its own box failed (len %d)", n))
+		m.Violation("authentic-rejected:secretbox.Open", map[string]any{"fn": "secretbox.Open", "box": mon.FullHex(sealed), "nonce": mon.FullHex(nonce[:]), "key": mon.FullHex(key[:]), "msg": mon.FullHex(msg)})
 		return
 	}
 	m.Count("baseline_authentic", 1)
@@ -599,7 +612,7 @@ func c02BoxUnit(m *mon.M, r *rand.Rand, fn, n int) {
 		pub0 = pubB // OpenAnonymous: recipient's own key pair
 	}
 	if out, ok := open(sealed, &nonce, pub0, priv0); !ok || !bytes.Equal(out, msg) {
-		m.Inconclusive(fmt.Sprintf("baseline: %s of its own box failed (len %d)", name, n))
+		m.Violation("authentic-rejected:"+name, map[string]any{"fn": name, "box": mon.FullHex(sealed), "nonce": mon.FullHex(nonce[:]), "public": mon.FullHex(pub0[:]), "private_or_shared": mon.FullHex(priv0[:]), "msg": mon.FullHex(msg)})
 		return
 	}
 	m.Count("baseline_authentic", 1)
@@ -745,8 +758,7 @@ func c02ConstructedUnit(m *mon.M, r *rand.Rand, ps []string, kind, n int, tgt po
 		var err error
 		onPath(path, func() { out, err = a.Open(nil, x.nonce, x.seal, x.ad) })
 		if err != nil || !bytes.Equal(out, x.pt) {
-			m.Inconclusive(fmt.Sprintf("baseline: %s Open rejects the spec-sealed message with constructed accumulator %s (%s, len %d) on %s; key=%s nonce=%s ad=%s pt=%s (acceptance is C01's clause; the tamper results of this unit on this path are vacuous)",
-				kindName(kind), tgt.name, tgt.fam, n, path, mon.FullHex(x.key), mon.FullHex(x.nonce), mon.FullHex(x.ad), mon.FullHex(x.pt)))
+			x.authenticRejected(path, fmt.Sprintf("constructed accumulator %s (%s), payload %d bytes", tgt.name, tgt.fam, n), err)
 			continue
 		}
 		m.Count(path+"_constructed_authentic_accepted", 1)
@@ -794,7 +806,7 @@ func c02LongADUnit(m *mon.M, r *rand.Rand, ps []string, kind, li int, ctA, adA, 
 		var err error
 		onPath(path, func() { out, err = a.Open(nil, x.nonce, x.seal, x.ad) })
 		if err != nil || !bytes.Equal(out, x.pt) {
-			m.Inconclusive(fmt.Sprintf("baseline: %s Open rejects the spec-sealed message with %d bytes of AD (payload %d) on %s (acceptance is C01's clause; this unit's tamper results on this path are vacuous)", kindName(kind), adlen, n, path))
+			x.authenticRejected(path, fmt.Sprintf("%d bytes of AD, payload %d bytes", adlen, n), err)
 			continue
 		}
 		m.Count(path+"_long_ad_authentic_accepted", 1)
